@@ -1,16 +1,22 @@
 """C24 Restarting a simulation from an intermediate state reproduces the run.
 
 Decide: spec/Restart.tla -- (mechanism) a joint between two moving links captures body-fixed data at assembly;
-        actions Advance / DeepCopy / Restart; TLC checks ModelUnchanged (captured data never change) and
-        AngleKeepsMeaning (tracked joint angle = accumulated relative rotation) for all histories up to the
-        bound and rejects the as-found re-capturing design; (plans) all split plans of an N-step run.
+        actions Advance / DeepCopy / Restart / PostProcess (a solver that evaluates the system a posteriori along
+        the rows of the leg, from its first row); TLC checks ModelUnchanged (captured data never change),
+        AngleKeepsMeaning / TrackerKeepsMeaning (tracked joint angle = accumulated relative rotation) and
+        RowsKeepMeaning (angles reported during the a posteriori evaluation) for all histories up to the bound
+        and rejects the two as-found designs (re-capturing restart; retrace with the end-of-run tracker);
+        (plans) all split plans of an N-step run.
 Bind:   (a) every transition of the mechanism graph is replayed into a real double pendulum (Revolute joints,
         spring on the inner joint): after each action the body-fixed joint point and bases recovered from the
         real joint, the constraint value at the mechanism pose, the joint angle and the contact/force-law
-        parameters are compared with their values after the first assembly.
+        parameters are compared with their values after the first assembly.  PostProcess runs the real
+        ScipyIVP.solve with solve_ivp replaced by a stub that returns the rows of the leg, so the solver's own a
+        posteriori loop runs on the real joints.
         (b) crash-point enumeration: every split plan (every split step k, nested splits, with/without deepcopy)
         of TLC's plan graph is executed with every solver on several systems and the concatenated trajectory is
-        compared with the uninterrupted run.
+        compared with the uninterrupted run; after every segment the angle every Revolute joint reports is
+        compared with the rotation accumulated along the rows of the segment (TrackerKeepsMeaning on real runs).
 """
 from __future__ import annotations
 
@@ -111,6 +117,10 @@ def replay_mechanism(walk_states, ctx, N, counters):
         m = Mechanism(N)
     hist = []
     t = 0.0
+    leg = [(0.0, 0, 0)]
+    with warnings.catch_warnings(), _quiet():
+        warnings.simplefilter("ignore")
+        leg_sys = m.system.deepcopy()  # the system as it is when a solver is started on it
     for st in walk_states[1:]:
         last = st["last"]
         op = last["op"]
@@ -126,13 +136,21 @@ def replay_mechanism(walk_states, ctx, N, counters):
                     j = m.joint()
                     ang = j.l(t, q[j.qDOF])
                     exp = m.angle0 + TWO_PI * st["angle"] / N
-                    if abs(ang - exp) > 1e-9 * (1 + abs(exp)):
+                    leg.append((t, a, b))
+                    if not (abs(ang - exp) <= 1e-9 * (1 + abs(exp))):
                         ctx.violation("mechanism:angle", f"joint angle {ang!r}, accumulated rotation gives {exp!r} after {hist}", rep)
                         return
                 elif op == "deepcopy":
                     m.system = m.system.deepcopy()
                 elif op == "restart":
                     m.system.set_new_initial_state(q, np.zeros(m.system.nu), t0=t, options=m.opts)
+                    leg = [(t, a, b)]
+                    leg_sys = m.system.deepcopy()
+                elif op == "postprocess":
+                    bad = postprocess(m, leg, st, N, leg_sys)
+                    if bad:
+                        ctx.violation("mechanism:postprocess", f"{bad} after {hist}", rep)
+                        return
         except Exception as ex:
             ctx.violation(f"mechanism:{op}:raises", f"{op} raised {type(ex).__name__}: {ex} after {hist}", rep)
             return
@@ -154,6 +172,61 @@ def replay_mechanism(walk_states, ctx, N, counters):
         if pr["spring"] != m.ref["spring"] or pr["angle0"] != m.ref["angle0"]:
             ctx.violation("mechanism:parameters", f"force-law / joint parameters changed: {pr['spring']}, angle0 {pr['angle0']} after {hist}", rep)
             return
+
+
+def postprocess(m, leg, st, N, leg_sys):
+    """the real ScipyIVP.solve on the rows of the leg, started on the system as it was at the first row: solve_ivp is
+    replaced by a stub that evaluates the solver's right-hand side at the rows (the integration) and returns them; the
+    solver's own a posteriori loop then evaluates the real system (and the spring on joint2) row by row.  The system
+    that went through the solve replaces the one the Advance steps were previewed on."""
+    import types
+    from cardillo.solver import scipy_ivp as mod
+
+    ts = np.array([r[0] for r in leg])
+    nu = m.system.nu
+    Y = np.array([np.concatenate([m.pose_q(r[1], r[2]), np.zeros(nu)]) for r in leg]).T
+    m.system = leg_sys
+    sp = m.system.contributions_map["spring"]
+    orig = sp.l
+    calls = []
+    phase = ["integration"]
+
+    def spy(t, q):
+        v = orig(t, q)
+        if phase[0] == "a posteriori":
+            calls.append((float(t), float(v)))
+        return v
+
+    def stub(fun, span, x0, **kw):
+        for k in range(len(ts)):
+            fun(float(ts[k]), Y[:, k])
+        phase[0] = "a posteriori"
+        return types.SimpleNamespace(success=True, t=ts, y=Y, message="", status=0)
+
+    real = mod.solve_ivp
+    solver = mod.ScipyIVP(m.system, float(ts[-1]) if ts[-1] > m.system.t0 else m.system.t0 + 0.01, 0.01)
+    try:
+        mod.solve_ivp = stub
+        sp.l = spy
+        solver.solve()
+    finally:
+        mod.solve_ivp = real
+        sp.l = orig
+    rows = st["rows"]
+    if len(rows) != len(leg):
+        raise tlc.MachineryError(f"spec rows {rows} do not match the leg {leg}")
+    for (ti, _, _), ri in zip(leg, rows):
+        exp = m.angle0 + TWO_PI * ri / N
+        for (tc, v) in calls:
+            if tc == float(ti) and not (abs(v - exp) <= 1e-9 * (1 + abs(exp))):
+                return f"a posteriori evaluation at row t={ti:g}: joint angle {v!r}, accumulated rotation gives {exp!r}"
+    j = m.joint()
+    q = m.pose_q(leg[-1][1], leg[-1][2])
+    ang = j.l(float(ts[-1]), q[j.qDOF])
+    exp = m.angle0 + TWO_PI * st["b"] / N
+    if not (abs(ang - exp) <= 1e-9 * (1 + abs(exp))):
+        return f"after the a posteriori evaluation the joint reports {ang!r} at the final pose, accumulated rotation gives {exp!r}"
+    return None
 
 
 # ----------------------------------------------------------------------------------------------- (b)
@@ -183,6 +256,26 @@ def sys_double_pendulum(spring=True):
         system.add(KelvinVoigtElement(j2, 5.0, 0.1, l_ref=0.0, compliance_form=False, name="spring"))
     system.assemble()
     return system
+
+
+def sys_spinning_bar(omega0=-40.0):
+    """bar on a revolute joint with a soft rotational spring, spinning fast: the joint passes several quadrants per segment"""
+    from cardillo import System
+    from cardillo.discrete import RigidBody
+    from cardillo.constraints import Revolute
+    from cardillo.force_laws import KelvinVoigtElement
+
+    system = System()
+    rb = RigidBody(1.0, np.diag([0.01, 1 / 12, 1 / 12]), q0=np.array([0.5, 0, 0, 1.0, 0, 0, 0]),
+                   u0=np.array([0, 0.5 * omega0, 0, 0, 0, omega0]), name="bar")
+    j = Revolute(system.origin, rb, axis=2, r_OJ0=np.zeros(3), A_IJ0=np.eye(3), name="hinge")
+    system.add(rb, j, KelvinVoigtElement(j, 0.5, 0.0, l_ref=0.0, compliance_form=False, name="spring"))
+    system.assemble()
+    return system
+
+
+def sys_spinning_bar_forward():
+    return sys_spinning_bar(omega0=100.0)
 
 
 def sys_spherical_chain():
@@ -266,6 +359,8 @@ def sys_two_free_bodies_shared_arrays():
 
 SYSTEMS = {
     "double_pendulum_spring": (sys_double_pendulum, ["Rattle", "BackwardEuler", "Moreau", "DualStormerVerlet", "ScipyIVP", "ScipyDAE"]),
+    "spinning_bar": (sys_spinning_bar, ["ScipyIVP", "ScipyDAE", "Rattle", "BackwardEuler", "Moreau", "DualStormerVerlet"]),
+    "spinning_bar_forward": (sys_spinning_bar_forward, ["ScipyIVP", "Rattle"]),
     "spherical_chain": (sys_spherical_chain, ["Rattle", "BackwardEuler", "Moreau", "ScipyIVP"]),
     "bouncing_ball": (sys_bouncing_ball, ["Moreau", "Rattle", "BackwardEuler", "DualStormerVerlet"]),
     "two_balls": (sys_two_balls, ["Moreau", "Rattle"]),
@@ -289,6 +384,41 @@ def _solve(name, system, t1):
         return cls(system, t1, DT, options=_tight()).solve()
 
 
+def _rel_angle(j, t, q):
+    A1, A2 = j.A_IJ1(t, q), j.A_IJ2(t, q)
+    ia, ib = j.plane_axes
+    return math.atan2(A2[:, ia] @ A1[:, ib], A2[:, ia] @ A1[:, ia])
+
+
+def _revolutes(system):
+    from cardillo.constraints import Revolute
+
+    return [c for c in system.contributions if isinstance(c, Revolute)]
+
+
+def tracker_check(system, sol, start):
+    """TrackerKeepsMeaning on a real run: the angle each Revolute joint reports at the end of the segment equals the
+    angle it reported at the first row plus the rotation accumulated along the rows (frames only, no tracker)"""
+    for j, ang0 in zip(_revolutes(system), start):
+        acc = ang0
+        prev = _rel_angle(j, sol.t[0], sol.q[0][j.qDOF])
+        ok = True
+        for ti, qi in zip(sol.t[1:], sol.q[1:]):
+            cur = _rel_angle(j, ti, qi[j.qDOF])
+            d = (cur - prev + math.pi) % TWO_PI - math.pi
+            if not (abs(d) < 0.5 * math.pi):
+                ok = False  # rows too far apart to accumulate: not judged
+                break
+            acc += d
+            prev = cur
+        if not ok:
+            continue
+        got = float(j.l(sol.t[-1], sol.q[-1][j.qDOF]))
+        if not (abs(got - acc) <= 1e-6 * (1 + abs(acc))):
+            return f"joint {j.name!r} reports the angle {got!r} at the end of the segment, the rotation accumulated along its rows gives {acc!r}"
+    return None
+
+
 def run_plan(ctx, sysname, mk, solver, segs, full, counters, nsteps):
     """execute one split plan and compare with the uninterrupted trajectory `full`"""
     from cardillo.solver import SolverOptions
@@ -307,6 +437,7 @@ def run_plan(ctx, sysname, mk, solver, segs, full, counters, nsteps):
     for i, sg in enumerate(segs):
         upto = sg["upto"]
         try:
+            start = [float(j.l(system.t0, system.q0[j.qDOF])) for j in _revolutes(system)]
             sol = _solve(solver, system, t_start + upto * DT)
         except Exception as ex:
             ctx.violation(key + ":segment-raises", f"segment {i} ({done}->{upto}) raised {type(ex).__name__}: {ex} for plan {rep['segments']}", rep)
@@ -315,6 +446,10 @@ def run_plan(ctx, sysname, mk, solver, segs, full, counters, nsteps):
             ctx.violation(key + ":segment-rows", f"segment {i} returned {len(sol.t)} instants for {upto - done} steps", rep)
             return
         t_all.append(sol.t[1:]); q_all.append(sol.q[1:]); u_all.append(sol.u[1:])
+        bad = tracker_check(system, sol, start)
+        if bad:
+            ctx.violation(key + ":tracker", f"segment {i} ({done}->{upto}) of plan {rep['segments']}: {bad}", rep)
+            return
         done = upto
         if done >= nsteps:
             break
@@ -357,7 +492,7 @@ def run_plan(ctx, sysname, mk, solver, segs, full, counters, nsteps):
 def _cfg(path, N, maxops, impl, mode, nsteps):
     with open(path, "w") as f:
         f.write(f'SPECIFICATION Spec\nCONSTANTS\n  N = {N}\n  MaxOps = {maxops}\n  Impl = "{impl}"\n  Mode = "{mode}"\n  NSteps = {nsteps}\n'
-                "INVARIANT ModelUnchanged\nINVARIANT AngleKeepsMeaning\nINVARIANT PlanOK\n")
+                "INVARIANT ModelUnchanged\nINVARIANT AngleKeepsMeaning\nINVARIANT TrackerKeepsMeaning\nINVARIANT RowsKeepMeaning\nINVARIANT PlanOK\n")
 
 
 def run(ctx):
@@ -377,6 +512,11 @@ def run(ctx):
     ra = tlc.run_tlc("Restart", cfg, scratch=ctx.scratch, timeout=600)
     if not ra.violated:
         raise tlc.MachineryError("as_found variant of Restart not rejected by TLC")
+    cfg = os.path.join(ctx.scratch, "rs_pa.cfg")
+    _cfg(cfg, N, 5, "post_as_found", "mechanism", 1)
+    ra = tlc.run_tlc("Restart", cfg, scratch=ctx.scratch, timeout=600)
+    if ra.violated not in ("TrackerKeepsMeaning", "RowsKeepMeaning"):
+        raise tlc.MachineryError(f"post_as_found variant of Restart not rejected by TLC ({ra.violated})")
     # (a) mechanism graph replay
     ops = 4 if not ctx.thorough else 5
     cfg = os.path.join(ctx.scratch, "rs_g.cfg")
